@@ -617,7 +617,8 @@ Fixpoint rets_distinct (d : mdef) {struct d} : bool :=
 (* ================================================================================== *)
 (* Part 7: scenarios and observations                                                   *)
 Inductive op := OSetIn (p : list kidref) (k : nat) (x : Z) | OSetOut (p : list kidref) (l : nat) (x : Z) | ORun
-              | OSetBad (p : list kidref) (k : nat).   (* assign a value that is not an int (a str) *)
+              | OSetBad (p : list kidref) (k : nat)    (* assign a value that is not an int (a str) *)
+              | ORunKw (kw : list (nat * Z)).          (* m.run(x=v, ...) / m(x=v, ...): HasIO.set_input_values, then run *)
 
 (* Would the assignment of a non-int be refused?  DataChannel.value setter, in source order: the channel
    checks the value against its OWN hint, then hands it to its value_receiver (whose setter does the
@@ -655,12 +656,16 @@ Fixpoint refuses_at (s : snode) (p : list kidref) (k : nat) {struct s} : bool :=
       end
   end.
 
+Definition set_kw (s : snode) (v : vnode) (kw : list (nat * Z)) : vnode :=
+  fold_left (fun w kx => set_in s w (fst kx) (Some (snd kx))) kw v.
+
 Definition apply_op (s : snode) (v : vnode) (o : op) : option (vnode * nat) :=
   match o with
   | OSetIn p k x => Some (set_in_at s v p k (Some x), 0)
   | OSetOut p l x => Some (fst (set_out_at s v p l (Some x)), 0)
   | ORun => match run s v with Some (v', calls, _) => Some (v', calls) | None => None end
   | OSetBad p k => if refuses_at s p k then Some (v, 0) else None   (* refused: nothing changes; accepted: not modelled *)
+  | ORunKw kw => match run s (set_kw s v kw) with Some (v', calls, _) => Some (v', calls) | None => None end
   end.
 
 Fixpoint apply_ops (s : snode) (v : vnode) (ops : list op) : option vnode :=
@@ -757,7 +762,7 @@ Fixpoint osteps (s : snode) (v : vnode) (ops : list op) : list obs :=
       match apply_op s v o with
       | Some (v', calls) =>
           (match o with
-           | ORun => OL [OS "ok"; on calls; odyn s v']
+           | ORun | ORunKw _ => OL [OS "ok"; on calls; odyn s v']
            | OSetBad _ _ => OL [OS "TypeError"; odyn s v']
            | _ => odyn s v'
            end) :: osteps s v' r
